@@ -9,8 +9,10 @@ import SlogModel.Basic
 
   The three movements are separate actions enabled at any time, so every burst pattern of the real code
   (thresholds, ticks, close) is one of the interleavings; the channel of a key set is shared by all
-  connections.  Not modelled: the timeout branch of `channelInputBuffer.Flush` (a batch is discarded
-  when the pipeline channel stays full for `IntermediateChannelTimeout`; the code logs it as a bug).
+  connections.  The timeout branch of `channelInputBuffer.Flush` — a batch is discarded when the pipeline
+  channel stays full for `IntermediateChannelTimeout`; the code logs it as a bug — is the action `cdiscard`: the
+  records are gone (that is C01's concern and is counted nowhere), and what C05 asks is that the order of what does
+  arrive is still the arrival order.
 -/
 
 namespace Dist
@@ -26,11 +28,14 @@ structure St where
   cache : Nat → Nat → List R := fun _ _ => []  -- channelInputBuffer.PendingLogs, per connection and key set
   chan : Nat → List R := fun _ => []           -- what has been sent to the pipeline channel of a key set, in order
   hist : Nat → List R := fun _ => []           -- ghost: records parsed on a connection, in order
+  kept : Nat → Nat → List R := fun _ _ => []   -- ghost: records parsed on a connection for a key set and not discarded, in order
+  discards : Nat := 0                          -- ghost: number of discarded batches
 
 inductive Act where
   | accept (r : R)            -- a record is parsed on connection `r.conn` (`Accept`)
   | move (c : Nat)            -- the oldest buffered record of connection `c` is appended to the buffer of its key set
   | cflush (c k : Nat)        -- the connection's buffer for key set `k` is sent to the channel (`Flush`)
+  | cdiscard (c k : Nat)      -- `Flush` times out on a full channel: the batch is dropped
   deriving Repr
 
 def upd (f : Nat → List R) (i : Nat) (v : List R) : Nat → List R := fun j => if j = i then v else f j
@@ -38,13 +43,17 @@ def upd2 (f : Nat → Nat → List R) (i k : Nat) (v : List R) : Nat → Nat →
   fun j l => if j = i ∧ l = k then v else f j l
 
 def step (s : St) : Act → Option St
-  | .accept r => some { s with b1 := upd s.b1 r.conn (s.b1 r.conn ++ [r]), hist := upd s.hist r.conn (s.hist r.conn ++ [r]) }
+  | .accept r => some { s with b1 := upd s.b1 r.conn (s.b1 r.conn ++ [r]), hist := upd s.hist r.conn (s.hist r.conn ++ [r]),
+                               kept := upd2 s.kept r.conn r.key (s.kept r.conn r.key ++ [r]) }
   | .move c =>
     match s.b1 c with
     | [] => none
     | r :: rest => some { s with b1 := upd s.b1 c rest, cache := upd2 s.cache c r.key (s.cache c r.key ++ [r]) }
   | .cflush c k =>
     some { s with chan := upd s.chan k (s.chan k ++ s.cache c k), cache := upd2 s.cache c k [] }
+  | .cdiscard c k =>
+    some { s with cache := upd2 s.cache c k [], discards := s.discards + 1,
+                  kept := upd2 s.kept c k ((s.chan k).filter (fun r => r.conn = c) ++ (s.b1 c).filter (fun r => r.key = k)) }
 
 def run (s : St) : List Act → Option St
   | [] => some s
